@@ -84,6 +84,7 @@ func (c *segDataBuffer) resize(newSize uint32) {
 		copy(c.items, c.items[shift:])
 		c._nrItems = newSize
 		c.items = c.items[:newSize]
+		c.size = newSize
 		return
 	}
 	newItems := make([]recSegData, newSize)
